@@ -1160,6 +1160,31 @@ def setup():
     return 2 if bad else 0
 
 
+def fidelity():
+    """Run harness/fidelity.c on the real kernel and on simk and compare the transcripts (trusted-base self-test)."""
+    import tempfile
+    H = vlib.HARNESS
+    d = tempfile.mkdtemp(prefix="fid_")
+    try:
+        wl = ["-Wl,--wrap=" + s for s in vlib.wrap_syms()]
+        for args in (["gcc", "-O1", "-g", "-w", H + "/fidelity.c", "-o", d + "/real"],
+                     ["gcc", "-O1", "-g", "-w", "-DSIMK", "-I" + H, H + "/fidelity.c", H + "/simk.c"] + wl + ["-o", d + "/sim"]):
+            r = subprocess.run(args, capture_output=True, text=True)
+            if r.returncode:
+                raise Infra("fidelity build failed:\n" + r.stderr[-2000:])
+        a = subprocess.run([d + "/real"], capture_output=True, text=True, stdin=subprocess.DEVNULL).stdout.splitlines()
+        b = subprocess.run([d + "/sim"], capture_output=True, text=True, stdin=subprocess.DEVNULL).stdout.splitlines()
+        diff = [(x, y) for x, y in zip(a, b) if x != y]
+        for x, y in diff:
+            print("DIFFERS real: %s\n        simk: %s" % (x, y))
+        ok = not diff and len(a) == len(b) and len(a) > 10
+        json.dump({"lines": len(a), "identical": ok, "transcript": a}, open(os.path.join(VERIF, "selftest_fidelity.json"), "w"), indent=1)
+        print("fidelity: %d lines, %s" % (len(a), "identical" if ok else "DIFFERENT"))
+        return 0 if ok else 1
+    finally:
+        shutil.rmtree(d, ignore_errors=True)
+
+
 def baseline():
     import tempfile
     d = tempfile.mkdtemp(prefix="reproc_base_")
